@@ -69,12 +69,12 @@ def langOf : String → Option Lang
   | "scala" => some .scala | "go" => some .go | "python" => some .python | _ => none
 
 /-- `(typescript ((k v)…) header|none)` … one clause per back end -/
-def decodeLang : Sx → Option Generate.LangCfg
+def decodeLang (U : UnicodeOps) : Sx → Option Generate.LangCfg
   | .list [.atom "typescript", m, h] => do
     some (.typescript { typeMappings := ← decodePairs m, versionHeader := ← optStr h })
   | .list [.atom "kotlin", m, h, .str pkg, .str modName, .str pfx] => do
     some (.kotlin { typeMappings := ← decodePairs m, versionHeader := ← optStr h, package := pkg,
-                    moduleName := modName, pfx })
+                    moduleName := modName, pfx, U })
   | .list [.atom "swift", m, h, .str pfx, .list dd, .list dgc, .list cvc] => do
     some (.swift { typeMappings := ← decodePairs m, versionHeader := ← optStr h, pfx,
                    defaultDecorators := ← Decode.strs dd, defaultGenericConstraints := ← Decode.strs dgc,
@@ -275,8 +275,8 @@ def handle (st : DriverState) (req : Sx) : DriverState × J :=
       | none => bad "rename")
   | .list [.atom "renameext", .atom f, .str s] =>
     (st, match f with
-      | "camel" => .obj [("ok", .str (Rename.toCamel s))]
-      | "pascal" => .obj [("ok", .str (Rename.toPascal s))]
+      | "camel" => .obj [("ok", .str (Rename.toCamel st.U s))]
+      | "pascal" => .obj [("ok", .str (Rename.toPascal st.U s))]
       | "snake" => .obj [("ok", .str (Rename.toSnake st.U s))]
       | "screaming_snake" => .obj [("ok", .str (Rename.toScreamingSnake st.U s))]
       | "kebab" => .obj [("ok", .str (Rename.toKebab st.U s))]
@@ -286,7 +286,7 @@ def handle (st : DriverState) (req : Sx) : DriverState × J :=
     (st, match Decode.strs comps, langOf lang with
       | some cs, some l =>
         match Files.findCrateName cs with
-        | some c => .obj [("ok", .str c), ("file", .str (Files.outputFileName l c))]
+        | some c => .obj [("ok", .str c), ("file", .str (Files.outputFileName st.U l c))]
         | none => .obj [("ok", .null)]
       | _, _ => bad "crate-name")
   | .list [.atom "serde", .atom pos, .str r, .str s] =>
@@ -304,7 +304,7 @@ def handle (st : DriverState) (req : Sx) : DriverState × J :=
           (Visitor.parseFile ext ctx pickSmallest crate fileName path file)
       | _, _, _ => bad "parse")
   | .list [.atom "generate", l, multi, .list tos, e, .list fs] =>
-    (st, match decodeLang l, multi.asBool?, Decode.strs tos, decodeExt st.U st.snake e, fs.mapM decodeSource with
+    (st, match decodeLang st.U l, multi.asBool?, Decode.strs tos, decodeExt st.U st.snake e, fs.mapM decodeSource with
       | some lang, some m, some targets, some ext, some files =>
         (match Generate.run ext lang m targets pickSmallest files with
         | .ok (.outputs outs) =>
@@ -315,7 +315,7 @@ def handle (st : DriverState) (req : Sx) : DriverState × J :=
         | .panic p => .obj [("panic", .str p)])
       | _, _, _, _, _ => bad "generate")
   | .list [.atom "c09-facts", l, .list tos, e, .list fs] =>
-    (st, match decodeLang l, Decode.strs tos, decodeExt st.U st.snake e, fs.mapM decodeSource with
+    (st, match decodeLang st.U l, Decode.strs tos, decodeExt st.U st.snake e, fs.mapM decodeSource with
       | some lang, some targets, some ext, some files =>
         let ctx : ParseContext := { ignoredTypes := Generate.ignoredTypes lang, multiFile := false, targetOs := targets }
         (match Generate.parseAll ext ctx pickSmallest files with
@@ -328,7 +328,7 @@ def handle (st : DriverState) (req : Sx) : DriverState × J :=
         | .panic p => .obj [("panic", .str p)])
       | _, _, _, _ => bad "c09-facts")
   | .list [.atom "c04-facts", l, e, f] =>
-    (st, match decodeLang l, decodeExt st.U st.snake e, Decode.file f with
+    (st, match decodeLang st.U l, decodeExt st.U st.snake e, Decode.file f with
       | some lang, some ext, some file =>
         (match Visitor.parseFile ext {} pickSmallest [] s%"out" s%"src/lib.rs" file with
          | .ok (some d) => .obj [("ok", c04Facts ext lang d)]
@@ -374,7 +374,7 @@ def handle (st : DriverState) (req : Sx) : DriverState × J :=
       | none => bad "tryfrom")
   | .list [.atom "format-type", l, .list gens, t] =>
     -- C05: `ty.parse::<RustType>()` then `Language::format_type(&ty, &generics)` on a fresh printer
-    (st, match decodeLang l, Decode.strs gens, Decode.ty t with
+    (st, match decodeLang st.U l, Decode.strs gens, Decode.ty t with
       | some lang, some gs, some sty =>
         (match RustTypes.tryFrom sty with
         | .ok rt =>
